@@ -11,6 +11,7 @@ func init() {
 		"service/platform/basic platform and chain SCORE (genesis installs revision, step price, step costs, step limits)",
 		"genesis transaction (real), signed v3 transactions built from JSON and verified with the real Verify()",
 	}
+	_ = "profiles: plain = no injected handler error; faults = handler errors injected by the harness"
 	stubbed := []string{
 		"module.Chain: harness chain object (ConcurrencyLevel drawn from {1,2,3,4,8}; transaction timeout 24h so that no timer ever decides)",
 		"Go scheduler: which parked transaction goroutine proceeds at each yield point is a tape choice; quiescence by runtime.Stack introspection at GOMAXPROCS=1",
@@ -25,82 +26,83 @@ func init() {
 		"handler errors (system failures) are injected by the harness wrapper/handler; retry-then-success uses at most 2 failing attempts (goloop retries twice)",
 	}
 	technique := "deterministic simulation: tape-drawn blocks and tape-chosen goroutine schedules over the real executors, injected handler errors, reference = sequential executor + independent interpreter, tape minimisation and replay"
-	note := "schedules are explored at yield-point granularity only (see assumptions); a clean batch is evidence over the sampled blocks x schedules, not a proof; relies on runtime.Stack goroutine-state introspection at GOMAXPROCS=1 for quiescence"
+	note := "schedules are explored at yield-point granularity only (see assumptions); a clean batch is evidence over the sampled blocks x schedules, not a proof; relies on runtime.Stack goroutine-state introspection at GOMAXPROCS=1 for quiescence (self-tested for exact replay on the unchanged tree, on the proposed-fix tree, on three lock-discipline-breaking mutants and under -race); " +
+		"the race-detector pass of DESIGN 3.6(c) is available as `./check.sh C09 thorough -race` but is not part of the registered thorough command (the runner has no per-property switch for it)"
 
 	kit.Register(&kit.PropertySpec{
 		ID: "C09", Engine: "execsim",
 		// "plain": no handler error is ever injected (every block must succeed); "faults": handler errors injected
 		// (finite retryable ones relax "the block must succeed" to "same outcome as the sequential executor")
-		Profiles: []kit.ProfileSpec{{Name: "plain", Weight: 2}, {Name: "faults", Weight: 3}},
+		Profiles:  []kit.ProfileSpec{{Name: "plain", Weight: 2}, {Name: "faults", Weight: 3}},
 		QuickRuns: 2400, QuickBudgetS: 45, ThoroughRuns: 400000, ThoroughBudgetS: 660,
 		// "identical to executing one by one ... for every goroutine schedule": a schedule under which the
 		// executing process dies is not identical to the sequential execution (which the same run performs afterwards)
 		CrashIsViolation: true,
 		Rule: "one run = one tape-drawn world (3-6 funded accounts, 2-5 script cells, step price/costs) and block (1-12 transactions: scripted read/write programs with account/world lock declarations, v3 transfers/messages, harness SCORE calls; retry-then-success handler errors) executed on a fresh base at a drawn ConcurrencyLevel under a tape-chosen goroutine schedule, and again on an identical fresh base by the sequential executor. " +
 			"Non-trivial = level > 1, both executions succeeded and at least one scheduling decision had >= 2 parked candidates; distinct = distinct event-log hash (world, block, every scheduling decision and every read/write observed).",
-		QuickProbes:      []string{"schedule_choice", "world_lock_tx", "waited_on_predecessor", "retry_then_success_concurrent"},
-		EssentialProbes:  []string{"schedule_choice", "world_lock_tx", "waited_on_predecessor", "retry_then_success_concurrent", "insufficient_balance", "out_of_step", "revert_after_mutation"},
-		Assumptions:      assume,
-		Real:             real,
-		Stubbed:          stubbed,
-		DesignRef:        "4.3",
-		LevelText:        "seeded exploration of blocks x goroutine schedules (tape-chosen at harness yield points) of the real concurrent executor, compared with the real sequential executor on an identical base and with an independent interpreter (every scripted read must see the latest earlier write in block order); deadlock = violation",
-		LevelNote:        note,
-		Technique:        technique,
+		QuickProbes:     []string{"schedule_choice", "world_lock_tx", "waited_on_predecessor", "retry_then_success_concurrent"},
+		EssentialProbes: []string{"schedule_choice", "world_lock_tx", "waited_on_predecessor", "retry_then_success_concurrent", "insufficient_balance", "out_of_step", "revert_after_mutation"},
+		Assumptions:     assume,
+		Real:            real,
+		Stubbed:         stubbed,
+		DesignRef:       "4.3",
+		LevelText:       "seeded exploration of blocks x goroutine schedules (tape-chosen at harness yield points) of the real concurrent executor, compared with the real sequential executor on an identical base and with an independent interpreter (every scripted read must see the latest earlier write in block order); deadlock = violation",
+		LevelNote:       note,
+		Technique:       technique,
 	})
 	kit.Register(&kit.PropertySpec{
 		ID: "C10", Engine: "execsim",
 		// "plain": no handler error is ever injected (every block must succeed); "faults": handler errors injected
 		// (finite retryable ones relax "the block must succeed" to "same outcome as the sequential executor")
-		Profiles: []kit.ProfileSpec{{Name: "plain", Weight: 1}, {Name: "faults", Weight: 5}},
+		Profiles:  []kit.ProfileSpec{{Name: "plain", Weight: 1}, {Name: "faults", Weight: 5}},
 		QuickRuns: 2400, QuickBudgetS: 45, ThoroughRuns: 400000, ThoroughBudgetS: 660,
 		CrashIsViolation: true,
 		Rule: "same generator as C09 with handler errors injected into ~30% of the transactions at a drawn position: retryable (ExecutionFailError / CriticalRerunError) for the first 1-2 attempts, retryable on every attempt (retry-exhausted) or non-retryable; both executor modes (level 1 and level > 1 each scheduled by the tape, plus the unscheduled sequential reference). " +
 			"Non-trivial = at least one injected handler error actually fired; distinct = distinct event-log hash.",
-		QuickProbes:      []string{"handler_error_fatal", "handler_error_retry_exhausted", "handler_error_retryable", "retry_then_success", "block_failed", "concurrent_executor", "sequential_executor"},
-		EssentialProbes:  []string{"handler_error_fatal", "handler_error_retry_exhausted", "handler_error_retryable", "handler_error_rerun", "retry_then_success", "block_failed", "block_failed_concurrent", "concurrent_executor", "sequential_executor"},
-		Assumptions:      assume,
-		Real:             real,
-		Stubbed:          stubbed,
-		DesignRef:        "4.3",
-		LevelText:        "seeded exploration of failing-transaction positions x failure kinds x executor modes x schedules: OnExecute(nil) must come with exactly one non-nil receipt per transaction in block order, a retry-exhausted or non-retryable handler error must fail the block in both modes, and a crash of the executing process is a violation",
-		LevelNote:        note,
-		Technique:        technique,
+		QuickProbes:     []string{"handler_error_fatal", "handler_error_retry_exhausted", "handler_error_retryable", "retry_then_success", "block_failed", "concurrent_executor", "sequential_executor"},
+		EssentialProbes: []string{"handler_error_fatal", "handler_error_retry_exhausted", "handler_error_retryable", "handler_error_rerun", "retry_then_success", "block_failed", "block_failed_concurrent", "concurrent_executor", "sequential_executor"},
+		Assumptions:     assume,
+		Real:            real,
+		Stubbed:         stubbed,
+		DesignRef:       "4.3",
+		LevelText:       "seeded exploration of failing-transaction positions x failure kinds x executor modes x schedules: OnExecute(nil) must come with exactly one non-nil receipt per transaction in block order, a retry-exhausted or non-retryable handler error must fail the block in both modes, and a crash of the executing process is a violation",
+		LevelNote:       note,
+		Technique:       technique,
 	})
 	kit.Register(&kit.PropertySpec{
 		ID: "C15", Engine: "execsim",
 		// "plain": no handler error is ever injected (every block must succeed); "faults": handler errors injected
 		// (finite retryable ones relax "the block must succeed" to "same outcome as the sequential executor")
-		Profiles: []kit.ProfileSpec{{Name: "plain", Weight: 3}, {Name: "faults", Weight: 2}},
+		Profiles:  []kit.ProfileSpec{{Name: "plain", Weight: 3}, {Name: "faults", Weight: 2}},
 		QuickRuns: 2400, QuickBudgetS: 45, ThoroughRuns: 400000, ThoroughBudgetS: 660,
 		Rule: "same generator biased to v3 transfers/messages and value-carrying SCORE calls with drawn balances (rich, about-a-fee, tiny, zero), values (small, zero, none, about the balance, above it), step limits (comfortable, minimum, just above, just beyond what the balance pays) and step price (0, 1, 7, 10, 12.5e9); retried transactions included. Checked on the scheduled execution and on the sequential one. " +
 			"Non-trivial = at least one fee-paying transaction executed at a non-zero step price; distinct = distinct event-log hash.",
-		QuickProbes:      []string{"insufficient_balance", "out_of_step", "success_receipt", "retry_then_success"},
-		EssentialProbes:  []string{"insufficient_balance", "out_of_step", "success_receipt", "retry_then_success", "concurrent_executor", "sequential_executor"},
-		Assumptions:      assume,
-		Real:             real,
-		Stubbed:          stubbed,
-		DesignRef:        "4.3",
-		LevelText:        "seeded exploration of blocks checked against an accounting model: per attempt (observed through the transaction's own context before and after the real handler) and over the block (payer charged stepUsed*stepPrice with minimum <= stepUsed <= stepLimit plus value iff success, recipient credited iff success, treasury delta = sum of fees, sum of balances unchanged, no negative balance, a retried transaction not charged twice)",
-		LevelNote:        note,
-		Technique:        technique,
+		QuickProbes:     []string{"insufficient_balance", "out_of_step", "success_receipt", "retry_then_success"},
+		EssentialProbes: []string{"insufficient_balance", "out_of_step", "success_receipt", "retry_then_success", "concurrent_executor", "sequential_executor"},
+		Assumptions:     assume,
+		Real:            real,
+		Stubbed:         stubbed,
+		DesignRef:       "4.3",
+		LevelText:       "seeded exploration of blocks checked against an accounting model: per attempt (observed through the transaction's own context before and after the real handler) and over the block (payer charged stepUsed*stepPrice with minimum <= stepUsed <= stepLimit plus value iff success, recipient credited iff success, treasury delta = sum of fees, sum of balances unchanged, no negative balance, a retried transaction not charged twice)",
+		LevelNote:       note,
+		Technique:       technique,
 	})
 	kit.Register(&kit.PropertySpec{
 		ID: "C16", Engine: "execsim",
 		// "plain": no handler error is ever injected (every block must succeed); "faults": handler errors injected
 		// (finite retryable ones relax "the block must succeed" to "same outcome as the sequential executor")
-		Profiles: []kit.ProfileSpec{{Name: "plain", Weight: 3}, {Name: "faults", Weight: 2}},
+		Profiles:  []kit.ProfileSpec{{Name: "plain", Weight: 3}, {Name: "faults", Weight: 2}},
 		QuickRuns: 2400, QuickBudgetS: 45, ThoroughRuns: 400000, ThoroughBudgetS: 660,
 		Rule: "same generator biased to calls into the harness SCORE whose program writes storage, read-modify-writes storage, emits event logs, sends BTP messages, transfers value out by inter-call and then succeeds / reverts / exhausts the steps / makes an invalid inter-call / panics, with drawn (sometimes tight) step limits, plus failing transfers; retried transactions included. " +
 			"Non-trivial = at least one failed receipt; distinct = distinct event-log hash.",
-		QuickProbes:      []string{"failed_receipt", "failed_after_partial_mutation", "revert_after_mutation", "out_of_step", "success_with_event_logs"},
-		EssentialProbes:  []string{"failed_receipt", "failed_after_partial_mutation", "revert_after_mutation", "out_of_step", "insufficient_balance", "success_with_event_logs", "retry_then_success"},
-		Assumptions:      assume,
-		Real:             real,
-		Stubbed:          stubbed,
-		DesignRef:        "4.3",
-		LevelText:        "seeded exploration of partially-mutating-then-failing transactions: for every failed receipt the accounts observed through the transaction's own context differ from before only in the payer's balance (by the fee), the receipt has no event logs and no BTP messages, and the final state equals the independent interpreter's (which applies nothing but the fee for a failed transaction)",
-		LevelNote:        note,
-		Technique:        technique,
+		QuickProbes:     []string{"failed_receipt", "failed_after_partial_mutation", "revert_after_mutation", "out_of_step", "success_with_event_logs"},
+		EssentialProbes: []string{"failed_receipt", "failed_after_partial_mutation", "revert_after_mutation", "out_of_step", "insufficient_balance", "success_with_event_logs", "retry_then_success"},
+		Assumptions:     assume,
+		Real:            real,
+		Stubbed:         stubbed,
+		DesignRef:       "4.3",
+		LevelText:       "seeded exploration of partially-mutating-then-failing transactions: for every failed receipt the accounts observed through the transaction's own context differ from before only in the payer's balance (by the fee), the receipt has no event logs and no BTP messages, and the final state equals the independent interpreter's (which applies nothing but the fee for a failed transaction)",
+		LevelNote:       note,
+		Technique:       technique,
 	})
 }
